@@ -50,6 +50,21 @@ type fix12 struct {
 }
 
 func truncMid(b []byte) []byte { return append([]byte(nil), b[:len(b)*2/3]...) }
+// failSkipping: a document that goes wrong while the value of an unknown member is being skipped (converters keep
+// "I am skipping" in pooled state)
+func failSkipping(b []byte) []byte {
+	if len(b) < 2 || b[0] != '{' {
+		return garbleJSON(b)
+	}
+	rest := string(b[1:])
+	if rest == "}" {
+		rest = ""
+	} else {
+		rest = "," + rest
+	}
+	return []byte(`{"zz_unknown":{"k":[1,{"q":tru` + rest)
+}
+
 func garbleJSON(b []byte) []byte {
 	c := append([]byte(nil), b...)
 	if len(c) > 4 {
@@ -111,6 +126,9 @@ func tryThriftFix(r *rand.Rand) *fix12 {
 	}
 	binIn := [][]byte{bins[0], bins[1], truncMid(bins[2]), bins[3]}
 	jsIn := [][]byte{jsons[0], jsons[1], garbleJSON(jsons[2]), jsons[3]}
+	if r.Intn(2) == 0 {
+		jsIn[2] = failSkipping(jsons[2])
+	}
 	errs := []bool{false, false, true, false}
 	fx := &fix12{troot: root, idl: idl}
 	fx.ops = []*op12{
@@ -210,7 +228,7 @@ func newBigProtoOps() []*op12 {
 		bins = append(bins, refMarshal(m))
 		jsons = append(jsons, []byte(fmt.Sprintf(`{"s":%q,"l":[1,-2,%d]}`, s, len(s))))
 	}
-	bins[2], jsons[2] = truncMid(bins[2]), garbleJSON(jsons[2])
+	bins[2], jsons[2] = truncMid(bins[2]), failSkipping(jsons[2])
 	errs := func() []bool { return []bool{false, false, true, false} }
 	desc := env.droot
 	return []*op12{
@@ -245,6 +263,9 @@ func newProtoFix(r *rand.Rand) *fix12 {
 	desc := env.droot
 	binIn := [][]byte{bins[0], bins[1], truncMid(bins[2]), bins[3]}
 	jsIn := [][]byte{jsons[0], jsons[1], garbleJSON(jsons[2]), jsons[3]}
+	if r.Intn(2) == 0 {
+		jsIn[2] = failSkipping(jsons[2])
+	}
 	errs := []bool{false, false, true, false}
 	fx := &fix12{}
 	fx.ops = []*op12{
